@@ -189,8 +189,8 @@ def r07_7(ctx, rr):
         if twin is None or (owner, twin) not in by_name:
             continue
         a, u = bs[0], by_name[(owner, twin)][0]
-        ta = rename_vars(result_term(F, a), param_names(a))
-        tu = rename_vars(result_term(F, u), param_names(u))
+        ta = rename_vars(result_term(F, a), param_roles(a))
+        tu = rename_vars(result_term(F, u), param_roles(u))
 
         def twinify(t):
             if not isinstance(t, tuple) or not t:
